@@ -394,6 +394,79 @@ def build():
         loops={1: LoopSpec([rm_inv], index="_i", havoc=[rm_havoc])},
         canaries=[lambda ex, env: env["g_new"].fields["cell_range"].ln == 0]))
 
+
+    # ------------------------------------------------------------------ Table.write: the written cell keeps the merge state of ITS position
+    class GridW(Custom):
+        """self._data of Table.write: one store at (row, col), later reads of the same position return the stored cell"""
+        def __init__(self):
+            self.stored = []  # [(row term, col term, cell)]
+
+        def getitem(self, ex, idx, line):
+            return RowW(self, T(idx))
+
+    class RowW(Custom):
+        def __init__(self, g, r):
+            self.g, self.r = g, r
+
+        def setitem(self, ex, idx, v, line):
+            self.g.stored.append((self.r, T(idx), v))
+
+        def getitem(self, ex, idx, line):
+            for (r, c, v) in reversed(self.g.stored):
+                if r.eq(self.r) and c.eq(T(idx)):
+                    return v
+            raise Unsupported("read of a grid position that was not written on this path")
+
+    def w_entry(with_style):
+        def entry(ex):
+            row, col = ex.fresh("int", "row"), ex.fresh("int", "col")
+            value = ex.fresh("int", "value")
+            cache = PObj("NameRefCache", {"dirty": False})
+            model = PObj("ModelW", {"name_ref_cache": cache, "g_nhr": ex.fresh("int", "num_header_rows"), "g_nhc": ex.fresh("int", "num_header_cols")})
+            grid = GridW()
+            table = PObj("TableW", {"_model": model, "_table_id": ex.fresh("int", "table_id"), "_data": grid, "g_styled": []})
+            return {"self": table, "args": (), "style": (PObj("StyleV", {}) if with_style else None),
+                    "g_row": row, "g_col": col, "g_value": value, "g_grid": grid, "g_cache": cache, "g_model": model}
+        return entry
+    mm12[("TableW", "_validate_cell_coords")] = lambda ex, o, a, k, l: (ex.entry_env["g_row"], ex.entry_env["g_col"], ex.entry_env["g_value"])
+    mm12[("TableW", "set_cell_style")] = lambda ex, o, a, k, l: o.fields["g_styled"].append((T(a[0]), T(a[1]), a[2]))
+    mm12[("ModelW", "merge_cells")] = lambda ex, o, a, k, l: PObj("MergeCellsW", {})
+    mm12[("MergeCellsW", "get")] = lambda ex, o, a, k, l: PObj("MergeLookup", {"r": a[0][0], "c": a[0][1]})
+    mm12[("ModelW", "num_header_rows")] = lambda ex, o, a, k, l: o.fields["g_nhr"]
+    mm12[("ModelW", "num_header_cols")] = lambda ex, o, a, k, l: o.fields["g_nhc"]
+    mm12[("NameRefCache", "mark_dirty")] = lambda ex, o, a, k, l: o.fields.__setitem__("dirty", True)
+    mm12[("NewCell", "_update_value")] = lambda ex, o, a, k, l: o.fields.__setitem__("g_updated", a[0])
+    mm12[("NewCell", "_set_merge")] = lambda ex, o, a, k, l: o.fields.__setitem__("g_merge", a[0])
+
+    def w_post(with_style):
+        def post(ex, env):
+            g = env["g_grid"]
+            row, col = env["g_row"].t, env["g_col"].t
+            if len(g.stored) != 1:
+                return z3.BoolVal(False)
+            r, c, cell = g.stored[0]
+            f = cell.fields
+            if not all(k_ in f for k_ in ("g_merge", "g_updated", "_table_id", "_model")) or f["_model"] is not env["g_model"]:
+                return z3.BoolVal(False)
+            dirty = env["g_cache"].fields["dirty"]
+            dirty_t = dirty.t if isinstance(dirty, SBool) else z3.BoolVal(bool(dirty))
+            styled = env["self"].fields["g_styled"]
+            style_ok = (len(styled) == 1 and styled[0][2] is env["style"]) if with_style else (len(styled) == 0)
+            conj = [r == row, c == col, T(f["row"]) == row, T(f["col"]) == col, T(f["value"]) == env["g_value"].t, T(f["g_updated"]) == env["g_value"].t,
+                    T(f["_table_id"]) == T(env["self"].fields["_table_id"]), T(f["g_merge"].fields["r"]) == row, T(f["g_merge"].fields["c"]) == col,
+                    dirty_t == z3.Or(row < env["g_model"].fields["g_nhr"].t, col < env["g_model"].fields["g_nhc"].t), z3.BoolVal(style_ok)]
+            if with_style:
+                conj += [styled[0][0] == row, styled[0][1] == col]
+            return z3.And(*conj)
+        post.__name__ = ("exactly the cell at (row, col) is replaced by the cell made from the value at that position, bound to this table and model; its "
+                         "merge state is looked up for (row, col) itself; the header-label cache is invalidated iff row < number of header rows or col < "
+                         "number of header columns" + ("; the style is applied to (row, col)" if with_style else "; no style is applied"))
+        return post
+    for lab, ws in (("plain", False), ("with-style", True)):
+        plan.target(Contract("document:Table.write", label=lab, entry=w_entry(ws), ensures=[w_post(ws)], safety="fork",
+                             search=lambda plan_, c: {"custom": "search_write", "native_module": plan_.native_module},
+                             opaque={"Cell._from_value(row, col, value)": lambda ex, env: PObj("NewCell", {"row": env["row"], "col": env["col"], "value": env["value"]})}))
+
     plan.bounded.append(BoundedStandIn(
         "merges", "c12_merges.py", ["--size", "4", "--pairs", "60", "--edits", "40"],
         thorough_args=["--size", "6", "--pairs", "400", "--edits", "300"],
